@@ -114,6 +114,8 @@ func cmdRun(args []string) int {
 	workers := fs.Int("workers", 16, "workers")
 	noEvidence := fs.Bool("no-evidence", false, "do not write the evidence file")
 	noReplay := fs.Bool("no-replay", false, "do not replay counterexamples natively")
+	noAgree := fs.Bool("no-agree", false, "do not replay sampled passing paths natively")
+	noCross := fs.Bool("no-cross", false, "do not re-decide sampled verdicts with cvc5 / z3 5.1")
 	var paramOv multiFlag
 	fs.Var(&paramOv, "param", "override a harness parameter: name=value (repeatable; for experiments, not for registered checks)")
 	fs.Parse(args)
@@ -197,6 +199,15 @@ func cmdRun(args []string) int {
 			Verbose:      *verbose,
 			Params:       ts.Params,
 			Overlay:      map[string][]byte{},
+			Seed:         seed,
+			CrossEvery:   97,
+			CrossMax:     8,
+		}
+		if *tier == "thorough" {
+			cfg.CrossEvery, cfg.CrossMax = 13, 200
+		}
+		if *noCross {
+			cfg.CrossEvery = 0
 		}
 		if ts.BudgetS > 0 {
 			cfg.Deadline = time.Now().Add(time.Duration(ts.BudgetS) * time.Second)
@@ -251,6 +262,36 @@ func cmdRun(args []string) int {
 			}
 		}
 		allViol = append(allViol, ex.Violations...)
+	}
+
+	// agreement replays: sampled passing paths are re-run natively (real Go, real libraries) under the model the
+	// solver produced for them; the native run must agree with the engine (translator validation, DESIGN 7)
+	agreeOK, agreeBad := 0, 0
+	if !*noReplay && !*noAgree {
+		perHarness := 1
+		if *tier == "thorough" {
+			perHarness = 3
+		}
+		for _, r := range results {
+			if r.spec.NoNativeReplay || len(r.ex.Violations) > 0 {
+				continue
+			}
+			for i, pp := range r.ex.PassingPaths {
+				if i >= perHarness {
+					break
+				}
+				ok, txt, err := nativeReplay(*specPath, *tier, pp)
+				switch {
+				case err != nil:
+					inconcl = append(inconcl, r.spec.Name+": agreement replay could not run: "+err.Error())
+				case ok:
+					agreeOK++
+				default:
+					agreeBad++
+					inconcl = append(inconcl, fmt.Sprintf("%s: a path the engine closed without violation does not replay natively the same way (decisions %v): %s", r.spec.Name, pp.Decisions, oneLine(lastLines(txt, 4))))
+				}
+			}
+		}
 	}
 
 	// violations: distinct by (harness,label,kind,known)
@@ -325,6 +366,7 @@ func cmdRun(args []string) int {
 		reach := map[string]int{}
 		var solverS, loadS float64
 		sat, unsat, unk, errs := 0, 0, 0, 0
+		cross := map[string]int{}
 		harn := []map[string]interface{}{}
 		for _, r := range results {
 			paths += r.ex.Paths
@@ -340,6 +382,11 @@ func cmdRun(args []string) int {
 			}
 			for k, v := range r.ex.Reach {
 				reach[r.spec.Name+":"+k] += v
+			}
+			for k, v := range r.ex.Notes {
+				if strings.HasPrefix(k, "xcheck.") {
+					cross[strings.TrimPrefix(k, "xcheck.")] += v
+				}
 			}
 			solverS += r.ex.Solver.Time.Seconds()
 			loadS += r.prog.LoadS
@@ -371,7 +418,7 @@ func cmdRun(args []string) int {
 			"coverage": map[string]interface{}{
 				"states":                        max(paths, 0),
 				"transitions":                   decisions,
-				"traces_validated_against_impl": 0,
+				"traces_validated_against_impl": agreeOK,
 				"samples":                       samples,
 				"technique":                     "bounded symbolic execution of the repo's Go SSA (gosx) with z3 deciding every branch feasibility, cover obligation and assertion",
 				"functions_encoded":             fnList,
@@ -384,6 +431,8 @@ func cmdRun(args []string) int {
 				"stubs_hit":                     stubs,
 				"reach_markers":                 reach,
 				"known_findings_seen":           knownSeen,
+				"cross_checked":                 cross,
+				"agreement_replays":             map[string]int{"agree": agreeOK, "disagree": agreeBad},
 				"inconclusive":                  inconcl,
 				"exhaustive":                    len(inconcl) == 0,
 			},
